@@ -18,6 +18,14 @@
 (*   "LoseDotStuffing"    a leading dot of a body line is lost            *)
 (*   "DropEmptyTail"      trailing empty lines dropped                    *)
 (*   "LowercaseNames"     field names re-cased                            *)
+(*   "FieldAfterSigning"  on the per-recipient body path of the pipeline  *)
+(*                        the fields requested by checks are added after  *)
+(*                        the signer ran (an over-signed one breaks it)   *)
+(* via: how the message reaches the signer: "direct" (the harness calls   *)
+(* the modifier), "pipe_body" / "pipe_na" (through a real pipeline whose  *)
+(* check asks for an over-signed field to be added, entered by Body /     *)
+(* BodyNonAtomic).  By contract the check's field is added BEFORE the     *)
+(* modifiers run, i.e. it is part of what is signed.                      *)
 (***************************************************************************)
 EXTENDS Naturals, Sequences, FiniteSets, TLC, Json
 
@@ -30,11 +38,12 @@ Endings   == {"crlf", "multi_empty", "nobody"}
 Canons    == {"relaxed", "simple"}
 Keys      == {"rsa2048", "ed25519"}
 Tampers   == {"none", "remove", "alter", "add_oversigned"}
+CONSTANT Vias   \* subset of {"direct", "pipe_body", "pipe_na"}
 
 SeqsUpTo(S, n) == UNION {[1..k -> S] : k \in 0..n}
 
 Shapes == [hdr : SeqsUpTo(HdrAtoms, MaxFields) \ {<<>>}, body : SeqsUpTo(BodyAtoms, MaxLines),
-           ending : Endings, hc : Canons, bc : Canons, key : Keys, eai : BOOLEAN, idn : BOOLEAN]
+           ending : Endings, hc : Canons, bc : Canons, key : Keys, eai : BOOLEAN, idn : BOOLEAN, via : Vias]
 
 Map(f(_), s) == [i \in 1..Len(s) |-> f(s[i])]
 
@@ -45,7 +54,9 @@ WireBody(a) == IF "StripTrailingWS" \in Devs /\ a = "trail_sp" THEN "text"
                ELSE IF "LoseDotStuffing" \in Devs /\ a = "dot" THEN "text"
                ELSE IF "LoseDotStuffing" \in Devs /\ a = "onlydot" THEN "empty" ELSE a
 WireEnd(e) == IF "DropEmptyTail" \in Devs /\ e = "multi_empty" THEN "crlf" ELSE e
-Received(m) == [m EXCEPT !.hdr = Map(SpoolHdr, m.hdr), !.body = Map(WireBody, m.body),
+\* a field that appears at the next hop although it was not there when the signature was made
+LateField(m) == IF "FieldAfterSigning" \in Devs /\ m.via = "pipe_na" THEN <<"late_oversigned">> ELSE <<>>
+Received(m) == [m EXCEPT !.hdr = LateField(m) \o Map(SpoolHdr, m.hdr), !.body = Map(WireBody, m.body),
                          !.ending = WireEnd(m.ending)]
 
 (* ---- canonicalisation over classes (RFC 6376 3.4) -------------------------- *)
@@ -93,7 +104,8 @@ RowOK == Verifies(row)
 RandSeq(S, lo, hi, i) == LET n == RandomElement(lo..hi) IN [k \in 1..n |-> RandomElement(S)]
 RandShape(i) == [hdr |-> RandSeq(HdrAtoms, 1, MaxFields, i), body |-> RandSeq(BodyAtoms, 0, MaxLines, i),
                  ending |-> RandomElement(Endings), hc |-> RandomElement(Canons), bc |-> RandomElement(Canons),
-                 key |-> RandomElement(Keys), eai |-> RandomElement(BOOLEAN), idn |-> RandomElement(BOOLEAN)]
+                 key |-> RandomElement(Keys), eai |-> RandomElement(BOOLEAN), idn |-> RandomElement(BOOLEAN),
+                 via |-> RandomElement(Vias)]
 GenInit == row \in {RandShape(i) : i \in 1..GenN}
 GenPrint == PrintT(<<"ROW", ToJson(row)>>) /\ UNCHANGED row
 GenSpec == GenInit /\ [][UNCHANGED row]_row
